@@ -283,7 +283,8 @@ type runOut struct {
 	steps    int
 	ops      map[byte]bool
 	panicked string
-	overrun  bool // step budget exceeded (only shrink candidates do that)
+	budget   *vm.GasBudget // direct mode: what evm.Call / evm.Create returned
+	overrun  bool          // step budget exceeded (only shrink candidates do that)
 }
 
 const stepBudget = 20000000
@@ -294,7 +295,9 @@ type budgetExceeded struct{}
 // addresses / storage keys touched (for the post-state projection) and (b) checks the resource
 // bounds directly: operand stack <= 1024, memory size a multiple of 32 and never larger than what
 // the gas spent so far in this frame can have paid for.
-func execute(t tcase, level int) (out runOut) {
+// With direct = true the body of runtime.Call / runtime.Create is replayed on runtime.NewEnv so that
+// the whole GasBudget of the outermost frame (not only its ExecutionGas) can be inspected.
+func executeMode(t tcase, level int, direct bool) (out runOut) {
 	out.addrs = map[common.Address]bool{}
 	out.keys = map[common.Address]map[common.Hash]bool{}
 	out.ops = map[byte]bool{}
@@ -370,6 +373,15 @@ func execute(t tcase, level int) (out runOut) {
 			} else if memFee(uint64(ml)/32).Cmp(new(big.Int).SetUint64(s0-gas)) > 0 {
 				bad(fmt.Sprintf("memory of %d bytes not paid for: fee %v > gas spent in frame %d (depth %d pc %d)", ml, memFee(uint64(ml)/32), s0-gas, depth, pc))
 			}
+			// gascosts.go accumulators: in every frame, at every instruction,
+			// ExecutionGas + UsedExecutionGas + Spilled = execution gas the frame was given
+			if sc, isScope := scope.(*vm.ScopeContext); isScope && ok && sc.Contract != nil {
+				g := sc.Contract.Gas
+				if g.ExecutionGas+g.UsedExecutionGas+g.Spilled != s0 {
+					bad(fmt.Sprintf("frame accumulators: left %d + used %d + spilled %d != given %d (depth %d pc %d op %#x)",
+						g.ExecutionGas, g.UsedExecutionGas, g.Spilled, s0, depth, pc, op))
+				}
+			}
 			if vm.OpCode(op) == vm.SSTORE && sl >= 1 {
 				a := scope.Address()
 				if out.keys[a] == nil {
@@ -393,6 +405,7 @@ func execute(t tcase, level int) (out runOut) {
 		Time:        t.env[3].Uint64(),
 		BlockNumber: t.env[4],
 		Random:      &rnd,
+		Difficulty:  new(big.Int),
 		BaseFee:     t.env[7],
 		BlobBaseFee: t.env[8],
 		BlobHashes:  blobs,
@@ -413,13 +426,36 @@ func execute(t tcase, level int) (out runOut) {
 			out.panicked = fmt.Sprint(e)
 		}
 	}()
-	if t.kind == 0 {
-		out.ret, out.gasLeft, out.err = runtime.Call(addrOf(t.to), t.data, cfg)
-	} else {
-		out.ret, out.created, out.gasLeft, out.err = runtime.Create(t.data, cfg)
+	if !direct {
+		if t.kind == 0 {
+			out.ret, out.gasLeft, out.err = runtime.Call(addrOf(t.to), t.data, cfg)
+		} else {
+			out.ret, out.created, out.gasLeft, out.err = runtime.Create(t.data, cfg)
+		}
+		return
 	}
+	// the body of runtime.Call / runtime.Create (every default of setDefaults is already set above)
+	env := runtime.NewEnv(cfg)
+	rules := cfg.ChainConfig.Rules(cfg.BlockNumber, cfg.Random != nil, cfg.Time)
+	limit := cfg.GasLimit
+	if rules.IsAmsterdam && limit > params.MaxTxGas {
+		limit = params.MaxTxGas
+	}
+	var res vm.GasBudget
+	if t.kind == 0 {
+		to := addrOf(t.to)
+		st.Prepare(rules, cfg.Origin, cfg.Coinbase, &to, vm.ActivePrecompiles(rules), nil)
+		out.ret, res, out.err = env.Call(cfg.Origin, to, t.data, vm.NewGasBudget(limit, cfg.GasLimit-limit), uint256.MustFromBig(cfg.Value))
+	} else {
+		st.Prepare(rules, cfg.Origin, cfg.Coinbase, nil, vm.ActivePrecompiles(rules), nil)
+		out.ret, out.created, res, out.err = env.Create(cfg.Origin, t.data, vm.NewGasBudget(limit, cfg.GasLimit-limit), uint256.MustFromBig(cfg.Value))
+	}
+	out.gasLeft = res.ExecutionGas
+	out.budget = &res
 	return
 }
+
+func execute(t tcase, level int) runOut { return executeMode(t, level, false) }
 
 // observables of one run, in the model's canonical form
 func observe(t tcase, o runOut) Sx {
@@ -536,13 +572,23 @@ func run(c Sx) Result {
 		for _, v := range o.viol {
 			fails = append(fails, nm+": "+v)
 		}
+		if b := o.budget; b != nil {
+			// used + left = given on the accumulators of gascosts.go, execution and state dimension
+			if b.ExecutionGas+b.UsedExecutionGas+b.Spilled != given {
+				fails = append(fails, fmt.Sprintf("%s: accumulators: left %d + used %d + spilled %d != execution gas given %d",
+					nm, b.ExecutionGas, b.UsedExecutionGas, b.Spilled, given))
+			}
+			if int64(b.StateGas)+b.UsedStateGas-int64(b.Spilled) != int64(t.gas-given) {
+				fails = append(fails, fmt.Sprintf("%s: state accumulators: reservoir %d + used %d - spilled %d != state gas given %d",
+					nm, b.StateGas, b.UsedStateGas, b.Spilled, t.gas-given))
+			}
+		}
 	}
 	for level := range forkNames {
 		if level == modelFork[t.fork%3] {
 			check(level, main)
-			continue
 		}
-		o := execute(t, level)
+		o := executeMode(t, level, true)
 		if o.overrun {
 			panic("hxlib: step budget exceeded")
 		}
@@ -571,6 +617,16 @@ func run(c Sx) Result {
 	}
 	if main.maxMem >= 4096 {
 		res.Tags = append(res.Tags, "mem4k")
+	}
+	for _, a := range t.pre {
+		if len(a.code) == 23 && a.code[0] == 0xef && a.code[1] == 1 && a.code[2] == 0 && main.addrs[addrOf(a.addr)] {
+			if t.fork%3 >= 1 {
+				res.Tags = append(res.Tags, "delegation_resolved")
+			} else {
+				res.Tags = append(res.Tags, "designator_called_cancun")
+			}
+			break
+		}
 	}
 	if len(main.st.Logs()) > 0 {
 		res.Tags = append(res.Tags, "logs")
